@@ -87,7 +87,7 @@ def gen_party(ctx, maxlen, simulate=None, depth=None):
     """Handler-call sequences of SignParty: exhaustive to maxlen, or seeded simulation."""
     kw = {}
     if simulate:
-        kw = dict(simulate="num=%d" % simulate, depth=depth, extra=("-seed", str(ctx.seed)), workers=2)
+        kw = dict(simulate="num=%d" % simulate, depth=depth, extra=("-seed", str(ctx.seed)), workers=1)
     res = ctx.tlc("SignPartyGen", cfg_text=PARTY_CFG % maxlen, timeout=1500, **kw)
     seen, hs = set(), []
     for raw in ctx.tlc_lines(res, "HIST"):
@@ -173,7 +173,7 @@ def run(ctx):
         tp = os.path.join(ctx.scratch, "ptrace%d.ndjson" % k)
         ptraces.append(tp)
         argvs.append([pdrv, "--script", sp, "--out", tp, "--scratch", os.path.join(ctx.scratch, "prun%d" % k), "--salt", str(k),
-                      "--workers", "16" if quick else "24"])
+                      "--workers", "16", "--quiet", "25" if quick else "40"])
     outs = ctx.run_parallel(argvs, timeout=1500)
     counts = summary(outs[:shards], "c15:")
     pcounts = summary(outs[shards:], "c15p:")
